@@ -38,6 +38,7 @@ ASSUMPTIONS = [
     'exceptions compared by class',
 ]
 SAFETY_STEPS = 3_000_000
+COPY_PY = (copy.__file__,)    # extraction deep-copies: interrupts land there too
 
 
 def closure_of_focus(world, focus):
@@ -112,7 +113,7 @@ def gen_case(seed, tier='quick'):
                     {'kind': 'interrupt', 'step': rng.randint(1, 500)}])
             ops.append(rt)
     ex = {'op': 'extract'}
-    if faulty and rng.random() < 0.35:
+    if faulty and rng.random() < 0.5:
         ex['fault'] = {'kind': 'interrupt',
                        'frac': round(rng.uniform(0.02, 1.1), 3)}
     ops.append(ex)
@@ -336,11 +337,12 @@ def _run(case, fs):
             at = None
             if fault is not None:
                 m2 = worlds.world_model(world, cells=inputs['M'], stale=True)
-                st = Stepper(max_steps=SAFETY_STEPS)
+                st = Stepper(max_steps=SAFETY_STEPS, extra_files=COPY_PY)
                 with st:
                     outcome_of(ModelCompiler.extract, m2, focus)
                 at = max(1, int(st.steps * fault['frac']))
-            st = Stepper(interrupt_at=at, max_steps=SAFETY_STEPS)
+            st = Stepper(interrupt_at=at, max_steps=SAFETY_STEPS,
+                         extra_files=COPY_PY)
             with st:
                 out = outcome_of(ModelCompiler.extract, M, focus)
             bump('sim_steps', st.steps)
